@@ -340,6 +340,9 @@ func (n *WorkflowNode) checkAndAddMappedPath(paths []FieldPath) error {
 		if _, ok = v.(struct{}); ok {
 			return fmt.Errorf("entire output has already been mapped for node: %s", n.key)
 		}
+		if len(paths) == 0 {
+			return fmt.Errorf("entire output cannot be mapped for node %s: some fields have already been mapped", n.key)
+		}
 	} else {
 		if len(paths) == 0 {
 			n.mappedFieldPath[""] = struct{}{}
@@ -350,20 +353,35 @@ func (n *WorkflowNode) checkAndAddMappedPath(paths []FieldPath) error {
 	}
 
 	for _, targetPath := range paths {
-		m := n.mappedFieldPath[""].(map[string]any)
+		m, ok := n.mappedFieldPath[""].(map[string]any)
+		if !ok {
+			return fmt.Errorf("entire output has already been mapped for node: %s", n.key)
+		}
+		if len(targetPath) == 0 {
+			// mapping to the entire input conflicts with every other mapping
+			if len(m) > 0 {
+				return fmt.Errorf("entire output cannot be mapped for node %s: some fields have already been mapped", n.key)
+			}
+			n.mappedFieldPath[""] = struct{}{}
+			continue
+		}
 		var traversed FieldPath
 		for i, path := range targetPath {
 			traversed = append(traversed, path)
-			if v, ok := m[path]; ok {
-				if _, ok = v.(struct{}); ok {
-					return fmt.Errorf("two terminal field paths conflict for node %s: %v, %v", n.key, traversed, targetPath)
-				}
+			v, exists := m[path]
+			if _, isTerminal := v.(struct{}); isTerminal {
+				return fmt.Errorf("two terminal field paths conflict for node %s: %v, %v", n.key, traversed, targetPath)
 			}
 
 			if i < len(targetPath)-1 {
-				m[path] = make(map[string]any)
+				if !exists {
+					m[path] = make(map[string]any)
+				}
 				m = m[path].(map[string]any)
 			} else {
+				if exists {
+					return fmt.Errorf("two terminal field paths conflict for node %s: %v is a prefix of an already mapped path", n.key, targetPath)
+				}
 				m[path] = struct{}{}
 			}
 		}
